@@ -419,6 +419,8 @@ class ResolverMixin:  # pylint: disable=too-few-public-methods
                                 namespace))
                 raise
         else:
+            # An empty superclass name means no superclass
+            new_class.superclass = None
             superclass = None
 
         # Validate association qualifier matches superclass
